@@ -1055,6 +1055,24 @@ func (env *Env) callGhost(g *GhostFunc, args []Expr) (*Val, error) {
 	if len(args) != len(g.Params) {
 		return nil, fmt.Errorf("ghost %s takes %d arguments", g.Name, len(g.Params))
 	}
+	if g.Macro {
+		if env.depth > 8 {
+			return nil, fmt.Errorf("ghost macro %s: expansion too deep (recursive?)", g.Name)
+		}
+		m := &Env{e: e, vars: map[string]*Val{}, st: env.st, old: env.old, pkgPath: g.PkgPath, imports: g.Imports, depth: env.depth + 1}
+		for i, a := range args {
+			v, err := env.eval(a)
+			if err != nil {
+				return nil, err
+			}
+			m.vars[g.Params[i].Name] = v
+		}
+		r, err := m.eval(g.Body)
+		if err != nil {
+			return nil, fmt.Errorf("ghost macro %s: %v", g.Name, err)
+		}
+		return r, nil
+	}
 	name, rsort, err := e.ghostSymbol(g)
 	if err != nil {
 		return nil, err
